@@ -79,6 +79,7 @@ def oracle(case, obs) -> List[str]:
     names = KERNEL_LAUNCH | (MEM_LAUNCH if case["params"]["include_memory"] else set())
     out = []
     for r, rows in obs["rows"].items():
+        rows = C.relink(rows)      # links by correlation id, not the implementation's column
         by_idx = {x[0]: x for x in rows}
         exp = []
         for h in rows:
